@@ -211,6 +211,22 @@ bad_format:
  */
 int vnadata_set_format(vnadata_t *vdp, const char *format)
 {
+    return _vnadata_set_format(vdp, format, NULL, 0);
+}
+
+/*
+ * _vnadata_set_format: set the format string on behalf of a file loader
+ *   @vdp: a pointer to the vnadata_t structure
+ *   @format: format string as for vnadata_set_format
+ *   @filename: NULL, or name of the file the format was read from
+ *   @line: line of the file
+ *
+ * With a filename, an invalid format is a syntax error of that file,
+ * not a usage error of the caller.
+ */
+int _vnadata_set_format(vnadata_t *vdp, const char *format,
+	const char *filename, int line)
+{
     vnadata_internal_t *vdip;
     vnadata_format_descriptor_t *vfdp_new = NULL;
     size_t length;
@@ -254,6 +270,12 @@ int vnadata_set_format(vnadata_t *vdp, const char *format)
     cur = format_copy;
     for (const char *cp = format; *cp != '\000'; ++cp) {
 	if (*cp > 0x7e) {
+	    if (filename != NULL) {
+		_vnadata_error(vdip, VNAERR_SYNTAX, "%s (line %d) error: "
+			"invalid char '\\%02x' in format",
+			filename, line, *cp);
+		goto out;
+	    }
 	    _vnadata_error(vdip, VNAERR_USAGE, "vnadata_set_format: "
 		    "invalid char '\\%02x' in format", *cp);
 	    goto out;
@@ -286,6 +308,12 @@ int vnadata_set_format(vnadata_t *vdp, const char *format)
     cur = format_copy;
     for (int i = 0;;) {
 	if (parse_format(&vfdp_new[i], cur) == -1) {
+	    if (filename != NULL) {
+		_vnadata_error(vdip, VNAERR_SYNTAX, "%s (line %d) error: "
+			"invalid format specifier: \"%s\"",
+			filename, line, cur);
+		goto out;
+	    }
 	    _vnadata_error(vdip, VNAERR_USAGE,
 		    "invalid format specifier: \"%s\"", cur);
 	    goto out;
